@@ -21,7 +21,7 @@ LEFT_KINDS = ('LEFT JOIN', 'LEFT OUTER JOIN')
 
 
 def ident(name, table=None):
-    return Obj('Identifier', parts=name.split('.'), alias=None, _table=table)
+    return Obj('Identifier', parts=name.split('.'), alias=None, parentheses=False, _table=table)
 
 
 def const(v):
@@ -78,7 +78,7 @@ def base_stubs():
         'query_traversal': traverse,
         'Select': select_ctor,
         'BinaryOperation': lambda it, *a, **k: Obj('BinaryOperation', op=(a[0] if a else k.get('op')), args=list(k.get('args') or (a[1] if len(a) > 1 else [])), alias=None),
-        'Identifier': lambda it, *a, **k: Obj('Identifier', parts=list(k.get('parts') or (a[0].split('.') if a else [])), alias=k.get('alias'), _table=None),
+        'Identifier': lambda it, *a, **k: Obj('Identifier', parts=list(k.get('parts') or (a[0].split('.') if a else [])), alias=k.get('alias'), parentheses=False, _table=None),
         'Star': lambda it: Obj('Star'),
         'Constant': lambda it, v: const(v),
     }
@@ -100,7 +100,28 @@ _CTX = {}
 
 def interp_for(stubs, file=None, **kw):
     """an interpreter that resolves methods and class constants of the planner classes and the module-level names of `file`"""
-    return Interp.for_file(_CTX['src'], file or PJ, ISA, stubs, also=('mindsdb_sql/planner/plan_join.py', 'mindsdb_sql/planner/query_planner.py', 'mindsdb_sql/planner/ts_utils.py', 'mindsdb_sql/planner/utils.py'), **kw)
+    # the printers of the AST nodes the planner prints (Identifier.to_string) are interpreted too; the reserved words come from the static lexer model
+    if 'tok_stubs' not in _CTX:
+        from . import C04
+        _CTX['tok_stubs'] = C04.lexer_token_stubs(_CTX['ctx'])
+    st = dict(_CTX['tok_stubs'])
+    st.update(stubs)
+    return Interp.for_file(_CTX['src'], file or PJ, ISA, st, also=('mindsdb_sql/planner/plan_join.py', 'mindsdb_sql/planner/query_planner.py', 'mindsdb_sql/planner/ts_utils.py',
+                                                                   'mindsdb_sql/planner/utils.py', 'mindsdb_sql/parser/ast/base.py',
+                                                                   'mindsdb_sql/parser/ast/select/identifier.py'), **kw)
+
+
+def new_pjt(**attrs):
+    """a PlanJoinTablesQuery stand-in as its own constructor leaves it (interpreted: whatever bookkeeping attributes __init__ creates exist), then the given attributes"""
+    o = Obj('PlanJoinTablesQuery')
+    init = _CTX.get('pjt_init')
+    if init is not None:
+        try:
+            interp_for(base_stubs()).call_function(init, [o, attrs.get('planner') or Obj('QueryPlanner')], {}, _env())
+        except (Raised, AnalysisError):
+            pass
+    o.attrs.update(attrs)
+    return o
 
 
 def run(ctx):
@@ -123,7 +144,9 @@ def run(ctx):
     cls = class_named(tree, 'PlanJoinTablesQuery')
     ctx.need(cls is not None, 'PlanJoinTablesQuery not found')
     fn = class_members(cls)
-    _CTX.update(tree=tree, src=ctx.src)
+    _CTX.clear()
+    _CTX.update(tree=tree, src=ctx.src, ctx=ctx)
+    _CTX['pjt_init'] = fn.get('__init__')
     for need in ('check_query_conditions', 'check_node_condition', 'check_use_limit', 'process_table', 'get_filters_from_join_conditions',
                  'get_join_sequence', 'plan'):
         ctx.need(need in fn, f'PlanJoinTablesQuery.{need} not found')
@@ -152,7 +175,7 @@ def run(ctx):
         stubs = base_stubs()
         stubs['self.check_node_condition'] = lambda it, n: got.append(n)
         it = interp_for(stubs)
-        self_ = Obj('PlanJoinTablesQuery', query_context={})
+        self_ = new_pjt(query_context={})
         try:
             it.call_function(fn['check_query_conditions'], [self_, select_ctor(None, where=where)], {}, _env())
         except Raised as r:
@@ -195,7 +218,7 @@ def run(ctx):
         stubs['self.get_table_for_column'] = lambda it, c: c.attrs.get('_table') if isinstance(c, Obj) else None
         it = interp_for(stubs)
         try:
-            it.call_function(fn['check_node_condition'], [Obj('PlanJoinTablesQuery'), node], {}, _env())
+            it.call_function(fn['check_node_condition'], [new_pjt(), node], {}, _env())
         except Raised as r:
             raise AnalysisError(f'check_node_condition raises {r.exc_name} on `{label}`')
         rows += 1
@@ -242,7 +265,7 @@ def run(ctx):
         stubs['self.add_plan_step'] = lambda it, s: s
         stubs['SubSelectStep'] = lambda it, *a, **k: Obj('SubSelectStep', result='R-sub', args=a)
         stubs['Parameter'] = lambda it, v: Obj('Parameter', value=v)
-        self_ = Obj('PlanJoinTablesQuery', tables_fetch_step={0: Obj('FetchDataframeStep', result='R0')})
+        self_ = new_pjt(tables_fetch_step={0: Obj('FetchDataframeStep', result='R0')})
         it = interp_for(stubs)
         try:
             res = it.call_function(fn['get_filters_from_join_conditions'], [self_, me], {}, _env())
@@ -285,7 +308,7 @@ def run(ctx):
         stubs['self.add_plan_step'] = lambda it, s_: s_
         stubs['SubSelectStep'] = lambda it, *a, **k: Obj('SubSelectStep', result='R-sub', args=a)
         stubs['Parameter'] = lambda it, v: Obj('Parameter', value=v)
-        self_ = Obj('PlanJoinTablesQuery', tables_fetch_step={0: Obj('FetchDataframeStep', result='R0')})
+        self_ = new_pjt(tables_fetch_step={0: Obj('FetchDataframeStep', result='R0')})
         it = interp_for(stubs)
         try:
             res = it.call_function(fn['get_filters_from_join_conditions'], [self_, me], {}, _env()) or []
@@ -297,6 +320,44 @@ def run(ctx):
                f'ON {label}: a comparison that is not a top-level conjunct of ON ({[_show(c) for c in nested]}) is used as filter of the fetched table: under NOT / OR / a '
                f'function it does not restrict the join on its own', file=PJ, line=fn['get_filters_from_join_conditions'].lineno,
                witness='select * from int1.a join int2.b on not (b.y = 1)')
+    # a chain of three tables whose key columns share a name: each semi-join filter takes the values of the column of the table it names -------------------
+    ta = Obj('TableInfo', conditions=[], table=ident('a'), index=0, join_condition=None, join_type=None)
+    tb = Obj('TableInfo', conditions=[], table=ident('b'), index=1, join_type='INNER JOIN')
+    tc = Obj('TableInfo', conditions=[], table=ident('c'), index=2, join_type='INNER JOIN')
+    tb.attrs['join_condition'] = binop('=', ident('b.customer_id', tb), ident('a.id', ta))
+    tc.attrs['join_condition'] = binop('=', ident('c.order_id', tc), ident('b.id', tb))
+    self_ = new_pjt()
+    init_ = fn.get('__init__')
+    added_steps = []
+    stubs = base_stubs()
+    stubs['self.get_table_for_column'] = lambda it, c: c.attrs.get('_table') if isinstance(c, Obj) else None
+    stubs['self.add_plan_step'] = lambda it, s_: (added_steps.append(s_), s_)[1]
+    stubs['SubSelectStep'] = lambda it, q, df, **k: Obj('SubSelectStep', query=q, dataframe=df, result=Obj('Result', _of=len(added_steps)), **k)
+    stubs['Parameter'] = lambda it, v: Obj('Parameter', value=v)
+    try:
+        if init_ is not None:
+            interp_for(stubs).call_function(init_, [self_, Obj('QueryPlanner')], {}, _env())
+        self_.attrs['tables_fetch_step'] = {0: Obj('FetchDataframeStep', result='R-a'), 1: Obj('FetchDataframeStep', result='R-b')}
+        got = []
+        for me_ in (tb, tc):
+            res = interp_for(stubs).call_function(fn['get_filters_from_join_conditions'], [self_, me_], {}, _env()) or []
+            ins = [c for c in res if isinstance(c, Obj) and c.kind == 'BinaryOperation' and str(c.op).lower() == 'in']
+            desc = None
+            if len(ins) == 1 and isinstance(ins[0].args[1], Obj) and ins[0].args[1].kind == 'Parameter':
+                res_obj = ins[0].args[1].value
+                step = next((s_ for s_ in added_steps if s_.attrs.get('result') is res_obj), None)
+                if step is not None:
+                    tcol = step.query.targets[0].parts[-1] if step.query.targets else None
+                    desc = (ins[0].args[0].parts[-1], tcol, step.attrs.get('dataframe'), bool(step.query.attrs.get('distinct')))
+            got.append(desc)
+    except Raised as r:
+        got = f'raises {r.exc_name}'
+    rows += 1
+    want = [('customer_id', 'id', 'R-a', True), ('order_id', 'id', 'R-b', True)]
+    ctx.ob('C08.semi-join-source', 'a JOIN b ON b.customer_id = a.id JOIN c ON c.order_id = b.id', got == want,
+           f'the semi-join filters of the chain are {got}, expected {want} (column filtered, column whose distinct values are taken, result they are taken from): the key '
+           f'values for the third table come from the SECOND table\'s `id`, not from another table\'s column of the same name', file=PJ,
+           line=fn['get_filters_from_join_conditions'].lineno, witness='select * from i1.customers a join i2.orders b on b.customer_id = a.id join i3.items c on c.order_id = b.id')
     # get_join_sequence attaches condition and kind of the join whose right side the table is
     for kind in ('LEFT JOIN', 'RIGHT JOIN'):
         cond1, cond2 = binop('=', ident('a.x'), ident('b.x')), binop('=', ident('b.x'), ident('c.x'))
@@ -312,7 +373,7 @@ def run(ctx):
         stubs = base_stubs()
         stubs['self.resolve_table'] = resolve
         stubs['self.planner.get_predictor'] = lambda it, n: None
-        self_ = Obj('PlanJoinTablesQuery', tables_idx={}, tables=[])
+        self_ = new_pjt(tables_idx={}, tables=[])
         it = interp_for(stubs)
         it.stubs['self.get_join_sequence'] = lambda itp, *a, **k: itp.call_function(fn['get_join_sequence'], [self_] + list(a), dict(k), _env())
         seq = it.call_function(fn['get_join_sequence'], [self_, j2], {}, _env())
@@ -359,7 +420,7 @@ def run(ctx):
             itertools.product((None, 'set'), (None, 'set'), (None, 'set'), (False, True), list(target_shapes)), seqs):
         q = select_ctor(None, limit=const(5) if limit else None, group_by=[ident('t1.a')] if group_by else None,
                         having=cmp_('t1.a') if having else None, distinct=distinct, targets=target_shapes[tname])
-        self_ = Obj('PlanJoinTablesQuery', query_context={})
+        self_ = new_pjt(query_context={})
         it = interp_for(base_stubs())
         try:
             it.call_function(fn['check_use_limit'], [self_, q, seq], {}, _env())
@@ -428,7 +489,7 @@ def run(ctx):
         stubs['self.get_table_for_column'] = lambda it, c: c.attrs.get('_table') if isinstance(c, Obj) and c.kind == 'Identifier' else None
         stubs['self.planner.get_integration_select_step'] = lambda it, s: (captured.append(s), Obj('FetchDataframeStep', query=s, result='R'))[1]
         stubs['self.add_plan_step'] = lambda it, s: s
-        self_ = Obj('PlanJoinTablesQuery', query_context={'use_limit': use_limit, 'binary_ops': ['and', 'or'] if has_or else ['and'], count_key: n_conj},
+        self_ = new_pjt(query_context={'use_limit': use_limit, 'binary_ops': ['and', 'or'] if has_or else ['and'], count_key: n_conj},
                     tables_fetch_step={}, step_stack=[])
         it = interp_for(stubs)
         try:
@@ -488,7 +549,7 @@ def run(ctx):
         stubs['self.planner.plan.add_step'] = lambda it, s: (added.append(s), s)[1]
         stubs['QueryStep'] = lambda it, query, from_table=None, **k: Obj('QueryStep', query=query, from_table=from_table)
         it = interp_for(stubs)
-        res = it.call_function(fn['plan'], [Obj('PlanJoinTablesQuery', tables_idx=None), q], {}, _env())
+        res = it.call_function(fn['plan'], [new_pjt(tables_idx=None), q], {}, _env())
         rows += 1
         if label == 'none':
             ctx.ob('C08.outer-reapply', 'none', res is join_step and not added, 'SELECT * without clauses: the join result is the answer', file=PJ, line=fn['plan'].lineno)
@@ -535,7 +596,7 @@ def run(ctx):
         stubs['SubSelectStep'] = lambda it, q, res, **k: Obj('SubSelectStep', query=q, dataframe=res, **k)
         it = interp_for(stubs)
         it.isa.update({'Star': set(), 'Data': set()})
-        self_ = Obj('PlanJoinTablesQuery', planner=Obj('QueryPlanner'), step_stack=[], query_context={})
+        self_ = new_pjt(planner=Obj('QueryPlanner'), step_stack=[], query_context={})
         label = f'sub-select {shape}, inner WHERE {"present" if inner_where else "absent"}, {nconds} outer condition(s)'
         try:
             it.call_function(psub, [self_, item], {}, _env())
